@@ -783,9 +783,10 @@ class TorchBackendProvider(BackendProvider):
             raise NonScalarLossError(tuple(y.shape))
 
         # Compute all gradients in one backward pass using torch.autograd.grad
-        grads = torch.autograd.grad(y, grad_tensors, create_graph=False)
+        grads = torch.autograd.grad(y, grad_tensors, create_graph=False, allow_unused=True)
 
-        return list(grads)
+        # a parameter the loss does not depend on has a zero gradient
+        return [torch.zeros_like(t) if g is None else g for g, t in zip(grads, grad_tensors)]
 
     def compute_jacobian(self, func, x):
         """
